@@ -8,6 +8,7 @@ import PhyloModel.Dist.Fold
 import PhyloModel.Dist.RecWalk
 import PhyloModel.Matrix.Upgma
 import PhyloModel.Matrix.UpgmaClamp
+import PhyloModel.Matrix.UpgmaArena
 import PhyloModel.Misc.Generators
 import PhyloModel.Misc.Layout
 import PhyloModel.Arena.Cli
@@ -369,6 +370,15 @@ def dispatch (st : DState) (fs : List String) : DState × String :=
     | some t, some c =>
       match UPG.upgmaC t c.toArray with
       | .ok (r, m, tie, dy) => (st, s!"ok {encURose r} {match m with | some g => encRat g | none => "-"} {encBool tie} {encBool dy}")
+      | .err k => (st, "err " ++ k)
+      | .panic => (st, "panic")
+    | _, _ => bad
+  | ["up.shape", taxa, cells] =>
+    -- the arena `upgma()` builds through `add` / `add_child` / `merge_children`, every length replaced by 0; `ar.dump` layout
+    match decTaxa taxa, (if cells == "_" then some [] else (words cells).mapM decRat) with
+    | some t, some c =>
+      match UPG.upgmaShape t c.toArray with
+      | .ok a => (st, "ok " ++ encArena a)
       | .err k => (st, "err " ++ k)
       | .panic => (st, "panic")
     | _, _ => bad
